@@ -82,6 +82,9 @@ def ops_fn(S):
     ops = []
     for name, edit, prop, j in S.malformed_stream():
         ops.append(f"structure {name} " + json.dumps(j, ensure_ascii=False, separators=(",", ":")))
+    # the same deviations at nested object nodes of valid root values (model and real converter must both fail)
+    for name, edit, where, j in S.nested_malformed_stream():
+        ops.append(f"structure {name} " + json.dumps(j, ensure_ascii=False, separators=(",", ":")))
     return ops
 
 
@@ -91,7 +94,7 @@ def run(ctx):
                 "model vs real converter (structure must fail on both); oracle: structure() of the real converter must raise; "
                 "distinct = distinct (structure, edit, property, JSON)")
     convprop.run(ctx, "C11", ops_fn=ops_fn, inst_fn=lambda: inst_fn(doc), theorems=["C11", "C11_enums", "C11_env"],
-                 assumptions=["edits at the top-level object of the structure; theorems cover required (non-optional) properties; optional ones are covered by the generic validator lemma + correspondence"])
+                 assumptions=["edits at the top-level object of the structure (theorems) and, in the correspondence and the oracle, at nested object nodes of valid root values; theorems cover required (non-optional) properties; optional ones are covered by the generic validator lemma + correspondence"])
 
 
 def replay(path):
